@@ -3,6 +3,8 @@
 set -u
 cd "$(dirname "$0")" || exit 2
 export CARGO_NET_OFFLINE=true
+# cargo-fuzz builds with its own RUSTFLAGS (the harness .cargo/config.toml is not consulted): pass the hook guard explicitly
+export RUSTFLAGS="--cfg emit_rs_emit_verif ${RUSTFLAGS:-}"
 rc=0
 for t in $(grep -A1 '^\[\[bin\]\]' fuzz/Cargo.toml | grep '^name' | sed 's/.*"\(.*\)".*/\1/'); do
   cargo +nightly fuzz build "$t" >"fuzz/$t.log.build" 2>&1 || { echo "fuzz build failed: $t" >&2; tail -5 "fuzz/$t.log.build" >&2; rc=2; }
